@@ -109,6 +109,7 @@ func fileOps(c *Ctx, e *engine.OpEngine, f OpFilter) {
 		if f.Keep != nil && !f.Keep(parts[0], parts[1]) {
 			continue
 		}
+		c.R.Evals += e.Checked[k]
 		if bad[k] {
 			continue
 		}
